@@ -31,7 +31,8 @@ RULE = (
     "sampled product over set/unset time, grid, units, mask, two extra meta keys on producer and consumers x grid "
     "kinds (NoGrid with dims/shapes, uniform/rectilinear layouts compatible-but-different vs incompatible, points vs "
     "cells incl. an unstructured mesh with as many cells as nodes (equal data shape, only the location differs), 1-d, unstructured) x unit pairs (equal, convertible, incompatible, unset) x mask kinds (FLEX, NONE, nomask, "
-    "unset, explicit equal / equal-after-layout / different / all-false / wrong shape) x fan-out 1-3 in every consumer "
+    "unset, explicit equal / equal-after-layout / different / all-false / wrong shape; also ONE array object shared by "
+    "both ends on equal / different layouts, symmetric or not under the layout change) x fan-out 1-3 in every consumer "
     "order x adapter chains of length 0-2 from Scale, AvgOverTime, SumOverTime(per_time or not), RegridNearest(in/out "
     "grid, out mask given or not), run through bare Output/Adapter/Input objects (incl. an exchange before push_info) "
     "and through Composition.connect() with harness components in every listing position of the producer; plus "
@@ -239,7 +240,17 @@ def canon_info(i):
 # ----------------------------------------------------------------------------------------------
 # building real objects from a case
 # ----------------------------------------------------------------------------------------------
+_MASK_POOL = None  # per run: raw bits -> the ONE ndarray object handed to every Info stating these bits
+
+
 def mk_mask(m):
+    if isinstance(m, list) and _MASK_POOL is not None:
+        # case flag "share_masks": both ends (and all consumers) get the very same array object, as user code
+        # that builds one mask array and passes it to several Infos does
+        key = repr(m)
+        if key not in _MASK_POOL:
+            _MASK_POOL[key] = np.array(m, dtype=bool)
+        return _MASK_POOL[key]
     if m is None:
         return None
     if m == "FLEX":
@@ -637,6 +648,15 @@ def run_accepts(case):
 
 
 def run_impl(case):
+    global _MASK_POOL
+    _MASK_POOL = {} if case.get("share_masks") else None
+    try:
+        return _run_impl(case)
+    finally:
+        _MASK_POOL = None
+
+
+def _run_impl(case):
     if case["mode"] == "accepts":
         return run_accepts(case)
     if case["mode"] == "relay":
@@ -860,7 +880,9 @@ def _link_failure(who, decl, got, dl, static):
         return None
     dgrid = None if decl["grid"] is None else GSPEC[decl["grid"]]
     if decl["mask"] is not None and not mask_accept_spec(decl["mask"], dgrid, dl["mask"], dl["grid"]):
-        return f"{who}: mask requirement {decl['mask']} not satisfied by delivered mask {dl['mask']}"
+        return (f"{who}: mask requirement {decl['mask']} (written in the layout of the consumer's grid {decl['grid']}) not "
+                f"satisfied by delivered mask {dl['mask']} (layout rev={dl['grid']['rev']} inc={dl['grid']['inc']}): "
+                f"they denote different cells")
     # declared values are kept, unset ones carry the delivered values
     for f in ("time", "grid", "units"):
         if f == "time" and static:
@@ -1224,7 +1246,8 @@ def _gen_case(rng, i):
             consumers.append({"info": ci, "chain": _gen_chain(rng, use_regrid, out, ci)})
         order = list(range(m))
         rng.shuffle(order)
-        case = {"mode": mode, "static": static, "out": out, "consumers": consumers, "order": order,
+        case = {"share_masks": rng.random() < 0.5,
+                "mode": mode, "static": static, "out": out, "consumers": consumers, "order": order,
                 "early": mode == "bare" and rng.random() < 0.15, "prod_pos": rng.randrange(m + 1)}
         if mode == "bare" and rng.random() < 0.02:
             case["out"] = None
@@ -1297,6 +1320,11 @@ CORPUS = [
     # seeded h: complete transfer rule followed by overriding FromValue rules (forward and backward)
     _relay_case(_I(units="m", k1=5), [], (_I(units=None, k1=None), [], "m/s", {"k1": 9}), [(_I(units=None), [])], "fwd"),
     _relay_case(_I(units=None), [], (_I(grid=None, units=None), [], "m/s", {}), [(_I(units="m"), [])], "bwd"),
+    # seeded k: the very same mask array object on both ends, grids compatible but the y axis runs the other way
+    {**_case(_I(mask=[[True, False], [False, False], [False, True]]),
+             [(_I(grid="U43f", mask=[[True, False], [False, False], [False, True]]), [])]), "share_masks": True},
+    {**_case(_I(mask=[[True, True], [False, False], [False, False]]),
+             [(_I(grid="U43f", mask=[[True, True], [False, False], [False, False]]), [])], mode="comp"), "share_masks": True},
     # producer info never pushed
     _case(None, [(_I(), [])]),
 ]
@@ -1420,6 +1448,31 @@ def generate(rng, tier):
             cases.append({"mode": "accepts", "self": _I(grid=a), "inc": _I(grid=b), "down": down})
     for i in range(n):
         cases.append(_gen_case(rng, i))
+    # ONE mask array object given to both ends / to all consumers, on compatible grids of equal data shape whose
+    # layouts are equal or differ; masks symmetric / not symmetric under the layout change.  Accepted iff the two
+    # masks denote the same cells.
+    shared = []
+    sym32, asym32 = [[True, True], [False, False], [False, False]], [[True, False], [False, False], [False, True]]
+    sym23, asym23 = [[True, False, False], [True, False, False]], [[True, False, False], [False, False, True]]
+    pairs = [("U43", "U43f", sym32, asym32), ("U43f", "U43", sym32, asym32), ("U43", "R43", sym32, asym32),
+             ("U43", "U43", sym32, asym32), ("R43", "U43f", sym32, asym32),
+             ("U43r", "U43rf", sym23, asym23), ("U43rf", "U43r", sym23, asym23),
+             ("U4", "U4f", [True, False, True], [True, False, False]), ("U4f", "U4", [False, True, False], [False, True, True])]
+    for (ga, gb, sym, asym) in pairs:
+        zero = (np.zeros(np.shape(sym), dtype=bool)).tolist()
+        for m in (sym, asym, zero):
+            for chain in ([], [["scale"]]):
+                for mode in ("bare", "comp"):
+                    shared.append(_case(_I(grid=ga, mask=m), [(_I(grid=gb, mask=m), chain)], mode=mode, prod_pos=len(chain)))
+            for order in ([0, 1], [1, 0]):
+                shared.append(_case(_I(grid=ga, mask=m), [(_I(grid=ga, mask=m), []), (_I(grid=gb, mask=m), [["avg"]])], order=order))
+            shared.append(_case(_I(grid=None, mask=m), [(_I(grid=ga, mask=m), []), (_I(grid=gb, mask=m), [])]))
+            shared.append(_case(_I(grid=ga, mask=m), [(_I(grid=None, mask=m), [])]))
+            for down in (False, True):
+                shared.append({"mode": "accepts", "self": _I(grid=ga, mask=m), "inc": _I(grid=gb, mask=m), "down": down})
+    for c in shared:
+        c["share_masks"] = True
+    cases += shared
     # real components with a ConnectHelper: push_infos in every _connect call, info transfer rules
     cases += _relay_sweep(tier)
     for i in range(n // 4):
@@ -1429,7 +1482,7 @@ def generate(rng, tier):
         a = _gen_info(rng, ALL_GRIDS)
         a["mask"] = _gen_mask(rng, a["grid"], p_unset=0.1)
         b = _gen_info(rng, ALL_GRIDS, ref=a, conflict=0.3)
-        cases.append({"mode": "accepts", "self": a, "inc": b, "down": rng.random() < 0.5})
+        cases.append({"mode": "accepts", "self": a, "inc": b, "down": rng.random() < 0.5, "share_masks": i % 2 == 0})
     return cases
 
 
@@ -1455,6 +1508,7 @@ def distribution(cases, obss):
         "consumer_mask_kind": dict(Counter(("bits" if isinstance(k["info"]["mask"], list) else str(k["info"]["mask"]))
                                            for c in cases for k in c["consumers"])),
         "static": sum(1 for c in cases if c["static"]),
+        "shared_mask_objects": sum(1 for c in cases if c.get("share_masks")),
         "early_exchange": sum(1 for c in cases if c.get("early")),
     }
     return d
@@ -1498,6 +1552,8 @@ def shrink_candidates(case):
             yield {**case, "consumers": cs[:i] + [nc] + cs[i + 1:]}
     if case.get("early"):
         yield {**case, "early": False}
+    if case.get("share_masks"):
+        yield {**case, "share_masks": False}
     if case["mode"] == "comp":
         yield {**case, "mode": "bare"}
     for i, c in enumerate(cs):
